@@ -93,6 +93,13 @@ def run(ck, m):
         called_by_writer_start = any(cb.id == wb.id for cb, _ in P.callers().get(b.id, [])) and \
             all(wb.dominates(cbi, x) for cb, cbi in P.callers().get(b.id, []) if cb.id == wb.id for x in vflush)
         after = not called_by_writer_start
+        # called from somewhere else (the snapshot driver): there it must come after the writer
+        for cb, cbi in P.callers().get(b.id, []):
+            if cb.id == wb.id:
+                continue
+            wcalls = [x for x, t2 in cb.calls() if callee(t2).endswith('Databases>::storage_data') or callee(t2) == wb.id]
+            if wcalls and not any(cb.dominates(w, cbi) for w in wcalls):
+                after = False
         what = 'values' if '.values' in sfx else 'keys'
         ck.ob('C11.b', short(b.id), 'remove-after-new-generation:%s' % what, after,
               'the old %s file is removed only after the snapshot writer returned' % what if after else
